@@ -75,7 +75,7 @@ fn apply_internal<Data: GarnishData>(this: &mut Data, instruction: Instruction, 
             }
         }
         (GarnishDataType::Partial, _) => {
-            let (expression, input) = this.get_partial(left_addr)?;
+            let (expression, input) = this.get_partial(left_addr.clone())?;
             match this.get_data_type(expression.clone())? {
                 GarnishDataType::Expression => {
                     let value = if use_right { this.add_concatenation(input, right_addr)? } else { input };
@@ -90,7 +90,14 @@ fn apply_internal<Data: GarnishData>(this: &mut Data, instruction: Instruction, 
                     next_instruction = n;
                     this.push_frame(this.get_instruction_cursor() + Data::Size::one())?;
                 }
-                _ => this.add_unit().and_then(|i| this.push_register(i))?,
+                // a partial whose receiver cannot be called has no defined result: offered to the host like
+                // every other undefined application
+                _ => {
+                    let right_type = this.get_data_type(right_addr.clone())?;
+                    if !this.defer_op(instruction, (GarnishDataType::Partial, left_addr), (right_type, right_addr))? {
+                        push_unit(this)?
+                    }
+                }
             }
         }
         (GarnishDataType::Symbol, GarnishDataType::SymbolList) | (GarnishDataType::SymbolList, GarnishDataType::Symbol) | (GarnishDataType::SymbolList, GarnishDataType::SymbolList) => {
